@@ -170,8 +170,10 @@ let run_case op kv : string * string =
     let ns = bytes kv "ns" and h = bytes kv "h" in
     let a = nat_of_int (num kv "a") in
     let be = backend_of (get kv "be") (get kv "cpu") in
+    let rev = get kv "rev" = "1" in
     let ops = List.map (fun c -> match c with
-      | 'N' -> ONext | 'B' -> OBack | 'S' -> OHint | 'C' -> OCount | _ -> failwith "bad iter op")
+      | 'N' -> if rev then OBack else ONext | 'B' -> if rev then ONext else OBack
+      | 'S' -> OHint | 'C' -> OCount | _ -> failwith "bad iter op")
       (List.init (String.length (get kv "ops")) (String.get (get kv "ops"))) in
     let (r, t) = iter_run be ns a h ops (iter_new h) in
     let fmt_out = function
